@@ -93,6 +93,7 @@ func HarnessC11_links() {
 	p.RequireNoReferrerOnFullyQualifiedLinks(nrfq)
 	p.AddTargetBlankToFullyQualifiedLinks(tb)
 	allowGlobally(p, "href", "rel", "target", "other")
+	verifFreeze()
 	el := pickEl("el", "a", "area", "link")
 	n := nondetIntRange("in.n", 1, nondetMax("maxAttrs"))
 	in := symAttrs(n, "href", "rel", "target", "other")
@@ -101,6 +102,7 @@ func HarnessC11_links() {
 	out := p.sanitizeAttrs(el, in, p.elsAndAttrs[el])
 	noteAttrs("out", out)
 
+	verifAssert(verifEffects() == 0, "C13-no-write-to-shared-state")
 	href, hasHref := firstAttr(out, "href")
 	if !hasHref {
 		return
@@ -181,6 +183,7 @@ func HarnessC12_forced() {
 		}
 	}
 	allowGlobally(p, "crossorigin", "sandbox", "other")
+	verifFreeze()
 	el := pickEl("el", "audio", "img", "link", "script", "video", "iframe")
 	n := nondetIntRange("in.n", 1, verifParam("maxAttrs"))
 	in := symAttrs(n, "crossorigin", "sandbox", "other")
@@ -188,6 +191,7 @@ func HarnessC12_forced() {
 	verifNote("el", el)
 	out := p.sanitizeAttrs(el, in, p.elsAndAttrs[el])
 	noteAttrs("out", out)
+	verifAssert(verifEffects() == 0, "C13-no-write-to-shared-state")
 	if len(out) == 0 {
 		return
 	}
@@ -319,6 +323,7 @@ func HarnessAttrs_generic() {
 		keys = append(keys, k)
 		p.globalAttrs[k] = ruleList("glob", nondetIntRange("glob.shape", 0, 3))
 	}
+	verifFreeze()
 	el := pickEl("el")
 	n := nondetIntRange("in.n", 1, verifParam("maxAttrs"))
 	in := symAttrs(n)
@@ -326,6 +331,7 @@ func HarnessAttrs_generic() {
 	verifNote("el", el)
 	out := p.sanitizeAttrs(el, in, aps)
 	noteAttrs("out", out)
+	verifAssert(verifEffects() == 0, "C13-no-write-to-shared-state")
 
 	ok := true
 	check := func(c bool, id string) {
@@ -394,6 +400,7 @@ func HarnessAttrs_matchRegex() {
 	e1, e2 := nondetRegexp("elre1"), nondetRegexp("elre2")
 	p.elsMatchingAndAttrs[e1] = map[string][]attrPolicy{k: {{regexp: r1}, {regexp: r2}}}
 	p.elsMatchingAndAttrs[e2] = map[string][]attrPolicy{k: {{regexp: r3}}}
+	verifFreeze()
 	name := nondetString("name")
 	aps, matched := p.matchRegex(name)
 	m1, m2 := e1.MatchString(name), e2.MatchString(name)
@@ -430,6 +437,7 @@ func HarnessAttrs_matchRegex() {
 	verifAssert(verifAnd(verifAnd(verifImplies(n1, c1 == 1 && c2 == 1), verifImplies(n2, c3 == 1)), verifImplies(verifNot(n1), c1 == 0 && c2 == 0)), "C02-second-lookup-independent-of-first")
 	verifAssert(verifImplies(verifNot(n2), c3 == 0), "C02-second-lookup-no-leaked-rules")
 	verifAssert(len(aps2[k]) == c1+c2+c3, "C02-second-lookup-only-policy-rules")
+	verifAssert(verifEffects() == 0, "C13-no-write-to-shared-state")
 }
 
 // ---- C03: URL attributes ------------------------------------------------------------
@@ -480,12 +488,14 @@ func HarnessC03_urls() {
 	el, key := urlPositions[pos][0], urlPositions[pos][1]
 	verifNoteInt("pos", pos)
 	allowGlobally(p, key, "other")
+	verifFreeze()
 	// one or two attributes; each is the URL attribute of the position or an
 	// unrelated allowed attribute (duplicates of the URL attribute included)
 	in := []html.Attribute{{Key: key, Val: nondetString("in.val")}}
 	noteAttrs("in", in)
 	out := p.sanitizeAttrs(el, in, map[string][]attrPolicy{})
 	noteAttrs("out", out)
+	verifAssert(verifEffects() == 0, "C13-no-write-to-shared-state")
 	nURL := 0
 	for _, o := range out {
 		if o.Key == key {
